@@ -12,19 +12,48 @@ released), modifications by other programs (including exact reversals) and
 namespace Mutagen.Properties.C42
 open Mutagen.Model.PollWatch Mutagen.Proofs.PollWatch
 
-/-- A transition that changed the disk strobes the poll signal and switches
-acceleration off. -/
-theorem changing_transition_strobes (s s' : St) (h : transEnd s = some (s', true)) :
-    s'.pending = true ∧ s'.strobed = true ∧ s'.accelerate = false := by
-  unfold transEnd at h
-  split at h
-  · rename_i t made _
-    simp only [Option.some.injEq, Prod.mk.injEq] at h
-    obtain ⟨h1, h2⟩ := h
-    subst h2
-    subst h1
-    by_cases ha : s.accelerate = true <;> simp [strobe, ha]
-  · simp at h
+/-- **A transition with a difference at any depth strobes and switches
+acceleration off.** If some result of the transition differs from the
+transition's old entry — deeply: a partially applied directory removal, whose
+result is the reduced directory with the same root kind, counts — then when
+`Transition` returns the poll signal has been strobed and accelerated scanning
+is off (so the next `Scan` walks the disk). -/
+theorem changing_transition_strobes (s s' : St) (olds results : List (Option Ent)) (made : Bool)
+    (h : transEnd s olds results = some (s', made)) (hne : results ≠ olds) :
+    made = true ∧ s'.pending = true ∧ s'.strobed = true ∧ s'.accelerate = false := by
+  obtain ⟨h1, h2⟩ := transEnd_some h
+  have hm : made = true := by rw [h2]; simp [hne]
+  subst hm
+  rw [h1]
+  unfold transFinish
+  by_cases ha : s.accelerate = true <;> simp [strobe, ha]
+
+/-- … and a transition whose results equal the old entries at every depth
+leaves acceleration and the signal alone (no feedback loop on changes that can
+never be applied). -/
+theorem unchanged_transition_is_quiet (s s' : St) (olds : List (Option Ent)) (made : Bool)
+    (h : transEnd s olds olds = some (s', made)) :
+    made = false ∧ s'.pending = s.pending ∧ s'.accelerate = s.accelerate := by
+  obtain ⟨h1, h2⟩ := transEnd_some h
+  have hm : made = false := by rw [h2]; simp
+  subst hm
+  rw [h1]
+  simp [transFinish]
+
+/-- Non-vacuity, and the case a shallow comparison gets wrong: removing the
+directory `d` = {a, b} only partly (b stays) yields the reduced directory, which
+is shallowly equal to the old entry but not equal to it. -/
+example :
+    let old : Option Ent := some ⟨1, [("a", 2), ("b", 2)]⟩
+    let result : Option Ent := some ⟨1, [("b", 2)]⟩
+    shallowEq result old = true ∧ [result] ≠ [old] := by decide
+
+/-- A polling scan that fails (the root cannot be opened) strobes the poll
+signal and leaves acceleration off; the loop goes on polling (`Step.tick` /
+`Step.tickFail` are enabled in every state). -/
+theorem failed_poll_scan_strobes (s : St) :
+    (tickFail s).pending = true ∧ (tickFail s).accelerate = false ∧ (tickFail s).snapshot = s.snapshot := by
+  simp [tickFail, strobe]
 
 /-- **No stale snapshot after a changing transition.** In every run, whatever
 happens between the end of a transition that changed the disk and a later
@@ -42,7 +71,7 @@ theorem no_stale_after_change {r a : Bool} {d : Nat} {tr1 tr2 : List Label} {s1 
   have i4 : Inv (scan s3 full).1 := inv_scan full i3
   have htv : s2.tver = s2.ver := by
     match ht with
-    | .transEnd _ _ _ hs => exact transEnd_true_tver hs
+    | .transEnd _ _ _ _ _ hs => exact transEnd_true_tver hs
   have hmono : s2.tver ≤ s3.tver := tver_run i2 h2
   by_cases hacc : s3.accelerate = true ∧ full = false
   · obtain ⟨sn, hsn, hle⟩ := i3.accel hacc.1
@@ -87,9 +116,9 @@ showed — because another program modified it, even by exactly reversing what
 synchronization just did — then after the next polling scan a strobe has been
 issued since that `Scan`, and its signal is pending or was already delivered. -/
 theorem modification_announced_by_next_poll {a : Bool} {d : Nat} {tr : List Label} {s : St} {v : Snap}
-    (h : Run (init true a d) tr s) (hv : s.view = some v) (hne : s.disk ≠ v.content) :
+    (h : Run (init true a d) tr s) (hb : s.broken = false) (hv : s.view = some v) (hne : s.disk ≠ v.content) :
     (tick s).strobed = true ∧ ((tick s).pending = true ∨ (tick s).consumed = true) := by
-  have h' : Run (init true a d) (tr ++ [.tick]) (tick s) := Run.snoc h (Step.tick s)
+  have h' : Run (init true a d) (tr ++ [.tick]) (tick s) := Run.snoc h (Step.tick s hb)
   obtain ⟨hd, hp⟩ := no_silent_divergence h'
   have hsnap : (tick s).snapshot = some ⟨s.disk, s.ver⟩ := by
     rw [tick_eq]; split <;> simp [strobe, tickCore]
@@ -113,15 +142,15 @@ example : upstreamFinal.disk = 1 ∧ upstreamFinal.view = some ⟨2, 1⟩ ∧
 /-- … and it is a run of the unrepaired model. -/
 example : Run (init false true 1) upstreamTrace upstreamFinal := by
   have r0 : Run u0 [] u0 := Run.nil _
-  have r1 : Run u0 ([] ++ [.tick]) u1 := Run.snoc r0 (Step.tick _)
-  have r2 : Run u0 ([] ++ [.tick] ++ [.scan false 1]) u2 := Run.snoc r1 (Step.scan u1 false (by decide))
+  have r1 : Run u0 ([] ++ [.tick]) u1 := Run.snoc r0 (Step.tick _ (by decide))
+  have r2 : Run u0 ([] ++ [.tick] ++ [.scan false 1]) u2 := Run.snoc r1 (Step.scan u1 false (by decide) (by decide))
   have r3 := Run.snoc r2 (Step.transBegin u2 2 u3 (by decide))
   have r4 := Run.snoc r3 (Step.transApply u3 u4 (by decide))
-  have r5 := Run.snoc r4 (Step.transEnd u4 u5 true (by decide))
+  have r5 := Run.snoc r4 (Step.transEnd u4 u5 true uOlds uResults (by decide))
   have r6 := Run.snoc r5 (Step.poll u5 u6 (by decide))
-  have r7 : Run u0 (_ ++ [.scan false 2]) u7 := Run.snoc r6 (Step.scan u6 false (by decide))
+  have r7 : Run u0 (_ ++ [.scan false 2]) u7 := Run.snoc r6 (Step.scan u6 false (by decide) (by decide))
   have r8 := Run.snoc r7 (Step.edit u7 1)
-  have r9 := Run.snoc r8 (Step.tick u8)
+  have r9 := Run.snoc r8 (Step.tick u8 (by decide))
   exact r9
 
 /-- The same schedule in the repaired model ends with the strobe issued
@@ -132,7 +161,7 @@ example :
     let s := (scan s false).1
     let s := (transBegin s 2).getD s
     let s := (transApply s).getD s
-    let s := ((transEnd s).map (·.1)).getD s
+    let s := ((transEnd s uOlds uResults).map (·.1)).getD s
     let s := (pollReturn s).getD s
     let s := (scan s false).1
     let s := edit s 1
